@@ -11,7 +11,8 @@ def _kv(tokens, key):
 def _dec(s):
     if s in (None, "%"):
         return ""
-    return re.sub(r"%([0-9A-Fa-f]{2})", lambda m: chr(int(m.group(1), 16)), s)
+    raw = re.sub(rb"%([0-9A-Fa-f]{2})", lambda m: bytes([int(m.group(1), 16)]), s.encode())
+    return raw.decode("utf-8", "surrogateescape")
 
 
 def _tok_class(cfg, hdr, tok, tok2):
@@ -31,9 +32,10 @@ def _tok_class(cfg, hdr, tok, tok2):
         return "trimmed"
     if tok.strip() == cfg or tok.strip() == cfg.strip():
         return "exact-plus-whitespace"
-    if cfg.startswith(tok):
+    cb, tb = cfg.encode("utf-8", "surrogateescape"), tok.encode("utf-8", "surrogateescape")
+    if cb.startswith(tb):           # bytes: a prefix may end in the middle of a multi-byte character
         return "prefix"
-    if tok.startswith(cfg):
+    if tb.startswith(cb):
         return "extension"
     if tok.lower() == cfg.lower():
         return "case-variant"
@@ -54,7 +56,7 @@ def _need(cfg):
         need.add("trimmed")
     if len(cfg) >= 2 and cfg[:-1].strip() != "" and cfg[:-1] != cfg.strip():
         need.add("prefix")
-    if cfg.lower() != cfg.upper():
+    if any(ch.isascii() and ch.isalpha() for ch in cfg):
         need.add("case-variant")
     return need
 
